@@ -105,6 +105,13 @@ func VerifHarness_C08_step() {
 	}
 	r.pump()
 	isLoggedOn, isConnected := r.s.IsLoggedOn(), r.s.IsConnected()
+	// the states the other steps start from are closed under a step: a pending test request wraps a logged-on state
+	// only (a wrapped logout or logon state would fall through the notification and timeout handling of both)
+	if p, ok := r.s.State.(pendingTimeout); ok {
+		_, in := p.sessionState.(inSession)
+		_, rs := p.sessionState.(resendState)
+		verifAssert(in || rs, "pending-test-request-wraps-only-logged-on-states")
+	}
 
 	// what reached the wire in this step (out0 may have been closed by the step)
 	var ws []verifWire
